@@ -15,6 +15,9 @@ Exit 0 = held on everything explored; exit 1 + `VIOLATION property=<id> replay=<
 """
 import argparse
 import hashlib
+import sys as _sys
+import os as _os
+_sys.path.insert(0, _os.path.dirname(_os.path.abspath(__file__)))
 import json
 import os
 import re
@@ -201,6 +204,15 @@ HOST = "x86_64-unknown-linux-gnu"
 def build_variant(name):
     """Build the harness (and with it graaf from /repo's working tree) in a sanitizer variant."""
     if name in VARIANTS:
+        return None
+    if name == "release":
+        # plain optimised build: overflow checks off, debug_assert! compiled out
+        tdir = os.path.join(HARNESS, "target-release")
+        rc, out, err = sh(["cargo", "build", "--offline", "--quiet", "--release"], cwd=HARNESS, timeout=3000,
+                          env=dict(ENV, CARGO_TARGET_DIR=tdir))
+        if rc != 0:
+            return "cargo build --release of the harness against /repo failed:\n" + (out + err)[-3000:]
+        VARIANTS[name] = (os.path.join(tdir, "release", "gharness"), {})
         return None
     if name in ("asan", "asan-release"):
         tdir = os.path.join(HARNESS, "target-" + name)
@@ -584,6 +596,17 @@ def main():
                     if variant != "plain":
                         r["tags"] = r["tags"] + ["variant=" + variant]
                 all_recs.extend(rs)
+    # source pins: the correspondence was established for this source text (tools/srcpin.py)
+    try:
+        import srcpin
+        ch_, ad_, rm_, npins = srcpin.diff(pid, ALT_REPO or "/repo")
+    except Exception as e_:  # a broken pin tool is a broken tie, never a silent pass
+        ch_, ad_, rm_, npins = [f"srcpin failed: {e_}"], [], [], 0
+    pin_report = {"pinned_items": npins, "changed": ch_, "new": ad_, "removed": rm_}
+    if ch_ or ad_ or rm_:
+        proof_failures = proof_failures + [
+            "source pin: the modelled code changed since the model was validated against it: "
+            + "; ".join([f"changed {k}" for k in ch_] + [f"new {k}" for k in ad_] + [f"removed {k}" for k in rm_])[:1500]]
     if plugin is not None and hasattr(plugin, "pre_checks"):
         # source-level ties regenerated from /repo on every run (e.g. the C13 site inventory)
         proof_failures = proof_failures + [f"pre-check: {x}" for x in plugin.pre_checks(ctx)]
@@ -624,7 +647,7 @@ def main():
         k = 0
         while time.time() - ts < budget_s and found is None:
             k += 1
-            extra = gen_inputs(pid, seed + 7919 * k, "thorough" if k > 1 or thorough else "quick")
+            extra = gen_inputs(pid, seed + 7919 * k, "stress" if k == 1 else "thorough")
             for mask in (masks if len(masks) > 1 else [None]):
                 rs = evaluate(extra, mask)
                 hit = next((r for r in rs if r["status"] == "PROPFAIL" or
@@ -665,7 +688,8 @@ def main():
     # ---- 5. evidence
     write_evidence(pid, tier, seed, props, thm_recs, all_recs, t0, violations=len(violations), notes=notes,
                    extra={"mismatches": len(mismatches), "propfails": len(propfails), "known_finding_cases": len(knowns),
-                          "proof_failures": proof_failures, "corpus_cases": len(corpus), "masks": masks, "repeat": repeat})
+                          "proof_failures": proof_failures, "corpus_cases": len(corpus), "masks": masks, "repeat": repeat,
+                          "source_pins": pin_report})
     for path, suffix in violations:
         print(f"VIOLATION property={pid} replay={path}{suffix}")
     if violations:
